@@ -486,14 +486,20 @@ def check_c18(pid, tier, t0, replay_key):
     findings += ft4
     obl += ot4
     st.update(stt4)
+    ft5, ot5, stt5 = e5.rule_t5(P)
+    findings += ft5
+    obl += ot5
+    st.update(stt5)
     st["name_flow_prefixes"] = list(NAME_FLOW)
     common.check_floors(pid, st, tables)
     if tier == "thorough":
         st["selftest"] = run_selftest(pid)
     explanation = (
-        "Decides two clauses of C18. (T4) 'name ids coming from feature code are shifted past the ids already used': every output-table field that "
+        "Decides three clauses of C18. (T4) 'name ids coming from feature code are shifted past the ids already used': every output-table field that "
         "receives an id minted by fea-rs's NameBuilder (feature parameters, STAT) is one that Compilation::remap_name_ids adjusts - a forgotten field "
-        "keeps naming the old id, i.e. no record or someone else's (this found FeatureParams::Size.name_entry, repaired). (H) 'the result does not "
+        "keeps naming the old id, i.e. no record or someone else's (this found FeatureParams::Size.name_entry, repaired). (T5) the function that hands out a "
+        "fresh feature-code name id advances the allocator on every path (a group of empty names used to leave it untouched, so two features shared one "
+        "id; repaired). (H) 'the result does not "
         "depend on anything but the source': the hash-order rule of C01 (engine E2) restricted to "
         "the name flow: name-id allocation and reuse in StaticMetadata::new / NameBuilder, the name table job (sort or BTreeMap merge of records), "
         "fvar and STAT name references, fea-rs name-id handling (compile::output, tables::name, tables::stat) and the name-id remap in "
